@@ -739,6 +739,52 @@ def close_and_call(run):
                     getattr(e5, op)()
                 except Exception:
                     pass
+            # prepare() publishes the starter and starts it inside ONE critical section: whoever finds the handle under the lock may join it
+            # (the rely relation has no state `handle set, thread not started`)
+            e7 = R.Environment()
+            held7, events = [], []
+
+            class Rec7(object):
+                def __init__(self, name):
+                    self.name = name
+
+                def acquire(self, *a, **k):
+                    held7.append(self.name)
+                    return True
+
+                def release(self):
+                    held7.remove(self.name)
+
+                def __enter__(self):
+                    held7.append(self.name)
+
+                def __exit__(self, *a):
+                    held7.remove(self.name)
+
+            class Starter7(object):
+                def __init__(self, target=None):
+                    events.append(('created', tuple(held7)))
+
+                def start(self):
+                    events.append(('started', tuple(held7), getattr(e7, 'prepare_thread', None) is self))
+
+                def join(self, timeout=None):
+                    pass
+            for k_, v_ in list(vars(e7).items()):
+                if isinstance(v_, lock_types):
+                    setattr(e7, k_, Rec7(k_))
+            real_thread = R.Thread
+            R.Thread = Starter7
+            try:
+                e7.prepare()
+            finally:
+                R.Thread = real_thread
+            started = [ev for ev in events if ev[0] == 'started']
+            prove('starter-is-started-inside-the-critical-section-that-publishes-it',
+                  len(started) == 1 and 'prepare_lock' in started[0][1] and
+                  (getattr(e7, 'prepare_thread', None) is None or isinstance(e7.prepare_thread, Starter7)),
+                  clause='prepare() starts the starter thread while it still holds prepare_lock: a thread that finds the handle under the lock can '
+                         'join it (joining a thread that was not started raises RuntimeError) [%r]' % (events,), path=path)
             prove('joiners-hold-the-start-up-lock', 'prepare_lock' in held_at_join, kind='lemma',
                   clause='run() and close() join the starter inside their critical section [locks held at the joins: %r]' % (sorted(held_at_join),), path=path)
             prove('starter-%s-waits-for-no-lock-a-joiner-holds' % ('fails' if fails else 'finishes'), not (set(waited) & held_at_join),
